@@ -951,8 +951,6 @@ impl Engine for KpSim {
                     rec.violate("I-err", "invalid operation does not end with a non-zero status", format!("kp {}: exit {:?}; library says: {}", args_shown, code, op_error));
                 } else if stderr_text.trim().is_empty() {
                     rec.violate("I-err", "invalid operation ends without an error message", format!("kp {}", args_shown));
-                } else if !stdout_text.is_empty() {
-                    rec.violate("I-err", "invalid operation produces output", format!("kp {}: {}", args_shown, out_lines.first().unwrap_or(&"")));
                 }
                 rec.logf(|| format!("kp {} -> invalid op, code {:?}", args_shown, code));
                 return;
@@ -1012,10 +1010,20 @@ impl Engine for KpSim {
             for (i, line) in out_lines.iter().enumerate() {
                 let Some(exp) = expected.get(i) else { break };
                 let Some(result) = exp.result else { continue };
-                let got: Vec<&str> = line.split(' ').collect();
-                // kp terminates every column with a blank
-                let ok = line.ends_with(' ') && {
-                    let cols = &got[..got.len() - 1];
+                // columns are compared as white space separated tokens: how kp separates or
+                // terminates them is not the property's subject
+                let got: Vec<&str> = line.split_whitespace().collect();
+                let same_number = |printed: &str, want: &str| -> bool {
+                    if printed == want {
+                        return true;
+                    }
+                    // spelling of non-finite values is left open
+                    let (p, w) = (printed.to_ascii_lowercase(), want.to_ascii_lowercase());
+                    let norm = |s: &str| s.replace("infinity", "inf").replace('+', "");
+                    (w.contains("nan") && p.contains("nan")) || (w.contains("inf") && norm(&p) == norm(&w))
+                };
+                let ok = {
+                    let cols = &got[..];
                     let dims_ok = match plan.dimension {
                         Some(d) => cols.len() == d as usize,
                         None => cols.len() >= exp.own_dims.min(4) && cols.len() <= 4,
@@ -1024,7 +1032,7 @@ impl Engine for KpSim {
                         Some(d) => vec![d as usize],
                         None => vec![5, 10],
                     };
-                    dims_ok && decs.iter().any(|d| cols.iter().enumerate().all(|(k, c)| *c == format!("{:.*}", *d, result[k])))
+                    dims_ok && decs.iter().any(|d| cols.iter().enumerate().all(|(k, c)| same_number(c, &format!("{:.*}", *d, result[k]))))
                 };
                 if !ok {
                     let d = plan.decimals.map(|d| d as usize).unwrap_or(10);
